@@ -182,7 +182,7 @@ impl Caps {
     fn fail(&mut self, rep: &mut Report, prop: &str, tag: &str, text: String) {
         let c = self.0.entry((prop.to_string(), tag.to_string())).or_insert(0);
         *c += 1;
-        if *c <= 6 {
+        if *c <= 3 {
             rep.fail(prop, text);
         } else {
             rep.count(&format!("{}.failures_not_listed.{}", prop, tag));
@@ -971,6 +971,191 @@ fn repeated_symbol_combo<C: RangeCombo>(rng: &mut Rng, w: u32, s: u32, bps: &[(u
     rep.count(&format!("C12.repeated.{}.min_slack_bits.{}", tag, bucket));
 }
 
+/// decode phase of the batch oracle on any backend: `plan` = list of (b, p, cdf, form, n, err_at);
+/// the batch decoder must return what the per-symbol loop on the twin returns and leave the same
+/// decoder state (also after an `Err` item or `InvalidData` part-way)
+fn batch_decode_phase<C: RangeCombo, Bk>(
+    mut d: RangeDecoder<C::W, C::S, Bk>,
+    mut twin: Dec<C>,
+    plan: &[(u32, u32, Vec<u128>, u32, usize, Option<usize>)],
+    desc: &str,
+    backend: &str,
+    tag: &str,
+    caps: &mut Caps,
+    rep: &mut Report,
+) where
+    Bk: ReadWords<C::W, Queue> + Clone + Pos + Seek + constriction::PosSeek<Position = usize>,
+{
+    let mut line = desc.to_string();
+    for (b, p, cdf, form, n, err_at) in plan {
+        line.push_str(&format!(" | decs {:x} {:x} {:x} {} {:x} {}", b, p, form, show_list(cdf.clone()), n, err_at.map(|j| hex(j as u128)).unwrap_or("-".into())));
+        let got = guarded(|| C::dec_batch(&mut d, *b, *p, *form, cdf, *n, *err_at).unwrap());
+        // the caller's loop
+        let mut out: Vec<u128> = Vec::new();
+        let mut expected: Option<String> = None;
+        for i in 0..*n {
+            if *form == 1 && Some(i) == *err_at {
+                expected = Some(format!("{} modelerr", show_list(out.clone())));
+                break;
+            }
+            match guarded(|| C::dec(&mut twin, *b, *p, cdf).unwrap()) {
+                Ok(o) => match parse_hex(&o) {
+                    Some(sy) if o != "invalid_data" => out.push(sy),
+                    _ => {
+                        expected = Some(format!("{} {}", show_list(out.clone()), o));
+                        break;
+                    }
+                },
+                Err(class) => {
+                    expected = Some(class.to_string());
+                    break;
+                }
+            }
+        }
+        let partway = expected.is_some();
+        let expected = expected.unwrap_or_else(|| show_list(out.clone()));
+        rep.eval("C02");
+        rep.count(&format!("batch.dec.form{}.{}.{}", form, backend, if !partway { "complete" } else if expected.ends_with("modelerr") { "err_item_partway" } else { "invalid_data_partway" }));
+        let same_state = show_dec_any::<C, Bk>(&d) == show_dec::<C>(&twin);
+        if got != Ok(expected.clone()) || !same_state {
+            caps.fail(rep, "C02", tag, format!("{} => batch form returned {:?} / decoder {}, the per-symbol loop {} / decoder {}", line, got, show_dec_any::<C, Bk>(&d), expected, show_dec::<C>(&twin)));
+            return;
+        }
+        if partway && !expected.ends_with("modelerr") {
+            return; // invalid data: nothing more to compare on this stream
+        }
+    }
+    rep.eval("C18");
+    let (a, b2, c2) = (d.maybe_exhausted(), Code::decoder_maybe_exhausted::<8>(&d), Decode::<8>::maybe_exhausted(&d));
+    if a != twin.maybe_exhausted() || a != b2 || a != c2 {
+        caps.fail(rep, "C18", tag, format!("{} | exhausted | exhausted2 => inherent {} / Code::decoder_maybe_exhausted {} / Decode::maybe_exhausted {} / per-symbol twin {}", line, a, b2, c2, twin.maybe_exhausted()));
+    }
+}
+
+/// C02 / C09 (default trait methods of src/stream/mod.rs instantiated for the range coder):
+/// `encode_symbols`, `try_encode_symbols`, `encode_iid_symbols`, `decode_symbols`,
+/// `try_decode_symbols`, `decode_iid_symbols` against the caller's per-symbol loop on a twin,
+/// including the state left behind by a batch that fails part-way; `IntoDecoder::into_decoder`,
+/// `RangeDecoder::for_compressed`, `Code::{encoder_maybe_full, decoder_maybe_exhausted}`.
+fn batch_combo<C: RangeCombo>(rng: &mut Rng, w: u32, s: u32, bps: &[(u32, Vec<u32>)], iters: usize, rep: &mut Report) {
+    let tag = format!("{}x{}", w, s);
+    let mut caps = Caps::new();
+    for _ in 0..iters {
+        let mut coder: Enc<C> = RangeEncoder::new();
+        let mut twin: Enc<C> = RangeEncoder::new();
+        let mut desc = format!("range {:x} {:x} | new", w, s);
+        let mut runs: Vec<(u32, u32, Vec<u128>, usize)> = Vec::new(); // (b, p, cdf, symbols encoded)
+        let mut ok = true;
+        for _ in 0..(1 + rng.next() % 5) {
+            let (b, p) = pick_bp(rng, bps);
+            let cdf = if rng.chance(1, 2) { gen_cdf(rng, p) } else { steer::<C>(rng, &coder, w, s, p, &[], b).0 };
+            let k = (rng.next() % 8) as usize;
+            let mut syms: Vec<usize> = (0..k).map(|_| rng.below(cdf.len() as u128 - 1) as usize).collect();
+            let form = *rng.pick(&[0u32, 2, 4]);
+            let mut err_at: Option<usize> = None;
+            if k > 0 && rng.chance(1, 3) {
+                let j = rng.below(k as u128) as usize;
+                if form == 2 && rng.chance(1, 2) {
+                    err_at = Some(j);
+                } else {
+                    syms[j] = match rng.next() % 3 { 0 => cdf.len() - 1, 1 => cdf.len() + 0x1_0000_0000usize, _ => usize::MAX };
+                }
+            }
+            desc.push_str(&format!(" | encs {:x} {:x} {:x} {} {} {}", b, p, form, show_list(cdf.clone()), show_list(syms.iter().map(|&x| x as u128).collect::<Vec<_>>()), err_at.map(|j| hex(j as u128)).unwrap_or("-".into())));
+            let got = guarded(|| C::enc_batch(&mut coder, b, p, form, &cdf, &syms, err_at).unwrap());
+            // the caller's loop on the twin
+            let mut expected = "ok".to_string();
+            let mut done = 0usize;
+            for (i, &sy) in syms.iter().enumerate() {
+                if form == 2 && Some(i) == err_at {
+                    expected = "modelerr".into();
+                    break;
+                }
+                match guarded(|| C::enc_sym(&mut twin, b, p, &cdf, sy).unwrap()) {
+                    Ok(o) if o == "ok" => done += 1,
+                    Ok(o) => {
+                        expected = o;
+                        break;
+                    }
+                    Err(class) => {
+                        expected = class.to_string();
+                        break;
+                    }
+                }
+            }
+            rep.eval("C02");
+            let partway = expected != "ok";
+            if partway {
+                rep.eval("C09");
+            }
+            rep.count(&format!("batch.enc.form{}.{}", form, if !partway { "complete" } else if expected == "modelerr" { "err_item_partway" } else { "impossible_partway" }));
+            if got != Ok(expected.clone()) || show_enc::<C>(&coder) != show_enc::<C>(&twin) {
+                let text = format!("{} | raw => batch form returned {:?} and left {}, the per-symbol loop {} and {}", desc, got, show_enc::<C>(&coder), expected, show_enc::<C>(&twin));
+                caps.fail(rep, "C02", &tag, text.clone());
+                if partway {
+                    caps.fail(rep, "C09", &tag, text);
+                }
+                ok = false;
+                break;
+            }
+            if done > 0 {
+                runs.push((b, p, cdf, done));
+            }
+        }
+        if !ok {
+            continue;
+        }
+        // trait forms of the fullness query
+        rep.eval("C18");
+        if coder.maybe_full() || Encode::<8>::maybe_full(&coder) || Code::encoder_maybe_full::<8>(&coder) {
+            caps.fail(rep, "C18", &tag, format!("{} | full => a Vec-backed encoder reports maybe_full", desc));
+        }
+        // decode plan: the runs, split into batches; a quarter of the streams are decoded with
+        // the wrong tables (arbitrary data for those models)
+        let wrong = rng.chance(1, 4);
+        let mut plan: Vec<(u32, u32, Vec<u128>, u32, usize, Option<usize>)> = Vec::new();
+        for (b, p, cdf, cnt) in &runs {
+            let mut left = *cnt;
+            while left > 0 {
+                let form = (rng.next() % 3) as u32;
+                let n = 1 + rng.below(left as u128) as usize;
+                let err_at = if form == 1 && rng.chance(1, 2) { Some(rng.below(n as u128) as usize) } else { None };
+                let table = if wrong { gen_cdf(rng, *p) } else { cdf.clone() };
+                plan.push((*b, *p, table, form, n, err_at));
+                left -= err_at.unwrap_or(n).max(if err_at == Some(0) { 0 } else { 1 }).min(left);
+                if err_at == Some(0) && rng.chance(1, 2) {
+                    break;
+                }
+            }
+        }
+        let sealed_twin = export::<C>(&twin);
+        // the decoder comes from `IntoDecoder::into_decoder` (trait form), the inherent
+        // `into_decoder`, or `for_compressed` on a borrowed buffer
+        match rng.next() % 3 {
+            0 => {
+                let d: Dec<C> = IntoDecoder::<8>::into_decoder(coder);
+                let t: Dec<C> = RangeDecoder::from_compressed(words::<C::W>(&sealed_twin)).unwrap();
+                desc.push_str(" | intodec2");
+                batch_decode_phase::<C, _>(d, t, &plan, &desc, "into_decoder_trait", &tag, &mut caps, rep);
+            }
+            1 => {
+                let d: Dec<C> = coder.into_decoder().unwrap();
+                let t: Dec<C> = RangeDecoder::from_compressed(words::<C::W>(&sealed_twin)).unwrap();
+                desc.push_str(" | intodec");
+                batch_decode_phase::<C, _>(d, t, &plan, &desc, "into_decoder", &tag, &mut caps, rep);
+            }
+            _ => {
+                let buf: Vec<C::W> = coder.into_compressed().unwrap();
+                let d = RangeDecoder::<C::W, C::S, Cursor<C::W, &[C::W]>>::for_compressed(&buf).unwrap();
+                let t: Dec<C> = RangeDecoder::from_compressed(words::<C::W>(&sealed_twin)).unwrap();
+                let dd = format!("rangedec {:x} {:x} | borrowed {}", w, s, show_list(unwords(&buf)));
+                batch_decode_phase::<C, _>(d, t, &plan, &dd, "for_compressed", &tag, &mut caps, rep);
+            }
+        }
+        rep.sample("C09", || desc.clone());
+    }
+}
+
 fn desc_with_snaps(head: &str, msg: &[(u32, u32, Vec<u128>, usize)]) -> String {
     let mut s = format!("{} | snap", head);
     for (b, p, cdf, sym) in msg {
@@ -979,46 +1164,29 @@ fn desc_with_snaps(head: &str, msg: &[(u32, u32, Vec<u128>, usize)]) -> String {
     s
 }
 
-pub fn oracle(rng: &mut Rng, tier: &str, rep: &mut Report) {
+fn all_classes<C: RangeCombo>(rng: &mut Rng, tier: &str, w: u32, s: u32, bps: &[(u32, Vec<u32>)], rep: &mut Report) {
     let iters = if tier == "thorough" { 20000 } else { 1200 };
     let adv = if tier == "thorough" { 60 } else { 6 };
-    let (nq, nrep) = if tier == "thorough" { (2048, 2000) } else { (160, 1200) };
+    let (nq, nrep) = if tier == "thorough" { (2048, 2000) } else { (400, 2000) };
+    // short random / steered histories first (their replays are the shortest), then the long
+    // adversarial messages, then the repeated-symbol search
+    oracle_combo::<C>(rng, w, s, bps, iters, rep);
+    batch_combo::<C>(rng, w, s, bps, iters / 3, rep);
+    adversarial_combo::<C>(rng, w, s, bps, adv, rep);
+    repeated_symbol_combo::<C>(rng, w, s, bps, nq, nrep, rep);
+}
+
+pub fn oracle(rng: &mut Rng, tier: &str, rep: &mut Report) {
     for (w, s, bps) in combos() {
         match (w, s) {
-            (8, 16) => repeated_symbol_combo::<C8x16>(rng, w, s, &bps, nq, nrep, rep),
-            (8, 32) => repeated_symbol_combo::<C8x32>(rng, w, s, &bps, nq, nrep, rep),
-            (8, 64) => repeated_symbol_combo::<C8x64>(rng, w, s, &bps, nq, nrep, rep),
-            (16, 32) => repeated_symbol_combo::<C16x32>(rng, w, s, &bps, nq, nrep, rep),
-            (16, 64) => repeated_symbol_combo::<C16x64>(rng, w, s, &bps, nq, nrep, rep),
-            (32, 64) => repeated_symbol_combo::<C32x64>(rng, w, s, &bps, nq, nrep, rep),
-            (32, 128) => repeated_symbol_combo::<C32x128>(rng, w, s, &bps, nq, nrep, rep),
-            (64, 128) => repeated_symbol_combo::<C64x128>(rng, w, s, &bps, nq, nrep, rep),
-            _ => {}
-        }
-    }
-    for (w, s, bps) in combos() {
-        match (w, s) {
-            (8, 16) => adversarial_combo::<C8x16>(rng, w, s, &bps, adv, rep),
-            (8, 32) => adversarial_combo::<C8x32>(rng, w, s, &bps, adv, rep),
-            (8, 64) => adversarial_combo::<C8x64>(rng, w, s, &bps, adv, rep),
-            (16, 32) => adversarial_combo::<C16x32>(rng, w, s, &bps, adv, rep),
-            (16, 64) => adversarial_combo::<C16x64>(rng, w, s, &bps, adv, rep),
-            (32, 64) => adversarial_combo::<C32x64>(rng, w, s, &bps, adv, rep),
-            (32, 128) => adversarial_combo::<C32x128>(rng, w, s, &bps, adv, rep),
-            (64, 128) => adversarial_combo::<C64x128>(rng, w, s, &bps, adv, rep),
-            _ => {}
-        }
-    }
-    for (w, s, bps) in combos() {
-        match (w, s) {
-            (8, 16) => oracle_combo::<C8x16>(rng, w, s, &bps, iters, rep),
-            (8, 32) => oracle_combo::<C8x32>(rng, w, s, &bps, iters, rep),
-            (8, 64) => oracle_combo::<C8x64>(rng, w, s, &bps, iters, rep),
-            (16, 32) => oracle_combo::<C16x32>(rng, w, s, &bps, iters, rep),
-            (16, 64) => oracle_combo::<C16x64>(rng, w, s, &bps, iters, rep),
-            (32, 64) => oracle_combo::<C32x64>(rng, w, s, &bps, iters, rep),
-            (32, 128) => oracle_combo::<C32x128>(rng, w, s, &bps, iters, rep),
-            (64, 128) => oracle_combo::<C64x128>(rng, w, s, &bps, iters, rep),
+            (8, 16) => all_classes::<C8x16>(rng, tier, w, s, &bps, rep),
+            (8, 32) => all_classes::<C8x32>(rng, tier, w, s, &bps, rep),
+            (8, 64) => all_classes::<C8x64>(rng, tier, w, s, &bps, rep),
+            (16, 32) => all_classes::<C16x32>(rng, tier, w, s, &bps, rep),
+            (16, 64) => all_classes::<C16x64>(rng, tier, w, s, &bps, rep),
+            (32, 64) => all_classes::<C32x64>(rng, tier, w, s, &bps, rep),
+            (32, 128) => all_classes::<C32x128>(rng, tier, w, s, &bps, rep),
+            (64, 128) => all_classes::<C64x128>(rng, tier, w, s, &bps, rep),
             _ => {}
         }
     }
